@@ -366,54 +366,84 @@ func (pm *PMap) add(e *Entry, reasons *[]Reason) {
 	pm.Order = append(pm.Order, k)
 }
 
-// Implements applies Go's method-set rule for the IR's types.
+// Implements applies Go's method-set rule for the IR's types. Every interface of the IR declares one marker method
+// named after itself (unless Bare) besides what it embeds, so method sets are sets of marker names.
 func Implements(c, iface *Type) bool {
 	c = c.Strip()
 	iface = iface.Strip()
-	var leaf *Type
-	ptr := false
+	want := ifaceMethods(iface)
+	var have map[string]bool
 	switch c.Kind {
 	case KLeaf, KAgg:
-		leaf = c
-	case KPtr:
-		if e := c.Elem.Strip(); e.Kind == KLeaf || e.Kind == KAgg {
-			leaf, ptr = e, true
+		if c.PtrRecv {
+			return false
 		}
+		have = concreteMethods(c)
+	case KPtr:
+		e := c.Elem.Strip()
+		if e.Kind != KLeaf && e.Kind != KAgg {
+			return false
+		}
+		have = concreteMethods(e)
 	case KIface:
-		return ifaceIncludes(c, iface)
-	}
-	if leaf == nil {
+		have = ifaceMethods(c)
+	default:
 		return false
 	}
-	if leaf.PtrRecv && !ptr {
-		return false
+	if len(want) == 0 {
+		return false // the IR has no empty interfaces
 	}
-	for _, i := range leaf.Impls {
-		if leaf.Partial {
-			// only the interface's own methods are declared: enough only if nothing is embedded
-			if i == iface && len(i.Embeds) == 0 {
-				return true
+	for m := range want {
+		if !have[m] {
+			return false
+		}
+	}
+	return true
+}
+
+func ifaceMethods(t *Type) map[string]bool {
+	ms := map[string]bool{}
+	var rec func(t *Type)
+	rec = func(t *Type) {
+		t = t.Strip()
+		if !t.Bare {
+			ms["Is"+t.Name] = true
+		}
+		for _, e := range t.Embeds {
+			rec(e)
+		}
+	}
+	rec(t)
+	return ms
+}
+
+func concreteMethods(c *Type) map[string]bool {
+	ms := map[string]bool{}
+	for _, i := range c.Impls {
+		i = i.Strip()
+		if c.Partial {
+			// only the interface's own method is declared
+			if !i.Bare {
+				ms["Is"+i.Name] = true
 			}
 			continue
 		}
-		if ifaceIncludes(i, iface) {
-			return true
+		for m := range ifaceMethods(i) {
+			ms[m] = true
 		}
 	}
-	return false
+	return ms
 }
 
 // ifaceIncludes reports whether interface a's method set includes b's.
 func ifaceIncludes(a, b *Type) bool {
-	if a == b {
-		return true
-	}
-	for _, e := range a.Embeds {
-		if ifaceIncludes(e.Strip(), b) {
-			return true
+	have := ifaceMethods(a.Strip())
+	for m := range ifaceMethods(b.Strip()) {
+		if !have[m] {
+			return false
 		}
 	}
-	return false
+	return true
 }
 
 type Model struct {
